@@ -364,6 +364,8 @@ func init() {
 			{Scenario: "panel.usage", Params: vx.P("sessions", "0.1", "ops", "up0.1:10,down0.1:7,round", "delay", "1"), Bound: b(2, 3), Weight: 8},
 			{Scenario: "panel.usage", Params: vx.P("sessions", "0.1,0.2", "ops", "up0.1:10,up0.2:20,round", "delay", "1"), Bound: b(2, 3), Weight: 8},
 			{Scenario: "panel.usage", Params: vx.P("sessions", "0.1,1.1", "ops", "up0.1:10,down1.1:20,round", "delay", "1"), Bound: b(2, 3), Weight: 8},
+			{Scenario: "panel.usage", Params: vx.P("sessions", "0.1", "ops", "up0.1:10,round,round", "delay", "1"), Bound: b(2, 3), Weight: 7},
+			{Scenario: "panel.usage", Params: vx.P("sessions", "0.1,1.1", "ops", "up0.1:10,down1.1:7,round,round", "delay", "1", "db", "bolt"), Bound: b(1, 2), Weight: 8},
 			{Scenario: "panel.usage", Params: vx.P("sessions", "0.1", "ops", "up0.1:10,round,close0.1"), Bound: b(1, 2), Weight: 8},
 			{Scenario: "panel.usage", Params: vx.P("sessions", "0.1,0.2", "ops", "up0.1:10,round,close0.2"), Bound: b(1, 2), Weight: 8},
 			{Scenario: "panel.usage", Params: vx.P("sessions", "0.1", "ops", "up0.1:300,round", "upcredit", "200"), Bound: b(2, 3), Weight: 6},
